@@ -1,8 +1,9 @@
 (* C13 — operator names match exactly; numbers, signs and braces tokenise as documented.  Property theorems only. *)
 From Coq Require Import List Arith NArith.
 Import ListNotations.
+From Coq Require Import Lia.
 From Exmex.Model Require Import Base Lexer.
-From Exmex.Proofs Require Import LexerFacts LongestMatch LexSpaced.
+From Exmex.Proofs Require Import LexerFacts LongestMatch LexSpaced LexFlex.
 Open Scope nat_scope.
 
 (* For EVERY operator table (so also tables whose names are prefixes of each other), data type and literal matcher. *)
@@ -86,6 +87,22 @@ Theorem C13_operator_found_by_its_name :
   k < length tb -> find_ops tb (repr (op_of tb k) ++ SPACE :: rest) = Some k.
 Proof. exact find_ops_spaced. Qed.
 
+(* ... and with FREE spacing (Proofs/LexFlex.v): every token followed by any number of spaces, also none, provided a number
+   or an operator name is followed by a terminator (a space, a parenthesis, an opening brace) or by the end of the text --
+   `sin({x})+{y}`, `( {x}  + 12 )*sin {y}`; an operator is found by its name in front of a terminator or the end of the
+   text in every table with distinct names that contain no terminator character. *)
+Theorem C13_free_spacing_text_tokenizes :
+  forall (D : Type) (C : carrier D) (tb : optable) (is_literal : str -> option nat) (items : list (token D * nat)),
+  Forall (flexable C tb is_literal) (map fst items) -> gaps_ok C tb items ->
+  tokenize C tb is_literal (ftext C tb items) = Ok (map fst items).
+Proof. exact @tokenize_flex. Qed.
+Theorem C13_operator_found_in_front_of_a_terminator :
+  forall (tb : optable) (k : nat) (rest : str),
+  (forall i j, i < length tb -> j < length tb -> repr (op_of tb i) = repr (op_of tb j) -> i = j) ->
+  (forall i, i < length tb -> forallb (fun c => negb (terminator c)) (repr (op_of tb i)) = true) ->
+  k < length tb -> tstart rest -> find_ops tb (repr (op_of tb k) ++ rest) = Some k.
+Proof. exact find_ops_flex. Qed.
+
 Print Assumptions C13_extended_name_is_variable.
 Print Assumptions C13_sign_unary_iff.
 Print Assumptions C13_numeric_literal.
@@ -106,5 +123,33 @@ Proof.
   split; [exact H|exact (tokenize_spaced term_carrier ex13_tb is_numeric_text ex13_ts H)].
 Qed.
 
+
+(* non-vacuity with free spacing:  sin({x})+{y}* 12  (one space: behind an operator that a digit would follow) and  sin ( {x} )  +{y} * 12   *)
+Definition ex13_flex (gaps : list nat) : list (token term * nat) := combine [TOp 2; TOpen; TVar [120%N]; TClose; TOp 0; TVar [121%N]; TOp 1; TNum (Lit [49;50]%N)] gaps.
+Example C13_example_free_spacing :
+  tokenize term_carrier ex13_tb is_numeric_text (ftext term_carrier ex13_tb (ex13_flex [0;0;0;0;0;0;1;0])) = Ok (map fst (ex13_flex [0;0;0;0;0;0;1;0])) /\
+  tokenize term_carrier ex13_tb is_numeric_text (ftext term_carrier ex13_tb (ex13_flex [1;1;1;2;0;1;1;3])) = Ok (map fst (ex13_flex [1;1;1;2;0;1;1;3])) /\
+  ftext term_carrier ex13_tb (ex13_flex [0;0;0;0;0;0;1;0]) = [115;105;110;40;123;120;125;41;43;123;121;125;42;32;49;50]%N.
+Proof.
+  assert (Hops : forall k rest, k < 3 -> tstart rest -> find_ops ex13_tb (repr (op_of ex13_tb k) ++ rest) = Some k).
+  { intros k rest Hk Hr. apply find_ops_flex; [| |exact Hk|exact Hr].
+    - intros i j Hi Hj. cbn in Hi, Hj. destruct i as [|[|[|i]]]; try lia; destruct j as [|[|[|j]]]; try lia; cbn; intros E; try reflexivity; discriminate.
+    - intros i Hi. cbn in Hi. destruct i as [|[|[|i]]]; try lia; reflexivity. }
+  assert (Hlit : forall rest, tstart rest -> is_numeric_text ([49;50]%N ++ rest) = Some 2).
+  { intros rest [->|(c & r & -> & Hc)]; [reflexivity|]. destruct (term_cases c Hc) as [E|[E|[E|E]]]; subst c; reflexivity. }
+  assert (Hnolit : forall k rest, k < 3 -> tstart rest -> is_numeric_text (repr (op_of ex13_tb k) ++ rest) = None).
+  { intros k rest Hk Hr. destruct k as [|[|[|k]]]; try lia; reflexivity. }
+  assert (HF : forall g, Forall (flexable term_carrier ex13_tb is_numeric_text) (map fst (ex13_flex g)) ).
+  { intros g. assert (HA : Forall (flexable term_carrier ex13_tb is_numeric_text) [TOp 2; TOpen; TVar [120%N]; TClose; TOp 0; TVar [121%N]; TOp 1; TNum (Lit [49;50]%N)]).
+    { repeat constructor; cbn [flexable]; try reflexivity; try (eexists _, _; split; reflexivity);
+        try (intros rest Hr; first [apply Hops; [lia|exact Hr]|apply Hnolit; [lia|exact Hr]|exact (Hlit rest Hr)]). }
+    unfold ex13_flex. rewrite Forall_forall in *. intros t Ht. apply HA. apply in_map_iff in Ht. destruct Ht as ([t' n] & <- & Hin). exact (in_combine_l _ _ _ _ Hin). }
+  split; [|split; [|reflexivity]].
+  - apply tokenize_flex; [apply HF|]. cbn. repeat split; intros Hn; try discriminate Hn; try (left; reflexivity); right; eexists _, _; split; reflexivity.
+  - apply tokenize_flex; [apply HF|]. cbn. repeat split; intros Hn; try discriminate Hn; try (left; reflexivity); right; eexists _, _; split; reflexivity.
+Qed.
+
 Print Assumptions C13_canonical_text_tokenizes.
 Print Assumptions C13_operator_found_by_its_name.
+Print Assumptions C13_free_spacing_text_tokenizes.
+Print Assumptions C13_operator_found_in_front_of_a_terminator.
